@@ -36,8 +36,31 @@ def f_running_max(delta, E, contact_point=0, baseline=0):
     return np.maximum.accumulate(_g(delta, E, contact_point, baseline))
 
 
+def f_pointwise_kwonly(delta, E, *, contact_point=0, baseline=0):
+    """a user's function with keyword-only contact point and baseline"""
+    SEEN[:] = [delta.tolist()]
+    return _g(delta, E, contact_point, baseline)
+
+
+_MEMO = {}
+
+
+def f_pointwise_memo(delta, E, contact_point=0, baseline=0):
+    """a user's function that remembers its results and hands out the
+    remembered array object again"""
+    SEEN[:] = [delta.tolist()]
+    key = (delta.tobytes(), float(E), float(contact_point), float(baseline))
+    if key not in _MEMO:
+        if len(_MEMO) > 5000:
+            _MEMO.clear()
+        _MEMO[key] = _g(delta, E, contact_point, baseline)
+    return _MEMO[key]
+
+
 TOYS = {"pointwise": f_pointwise, "prefix_sum": f_prefix_sum,
-        "index_weighted": f_index_weighted, "running_max": f_running_max}
+        "index_weighted": f_index_weighted, "running_max": f_running_max,
+        "pointwise_kwonly": f_pointwise_kwonly,
+        "pointwise_memo": f_pointwise_memo}
 
 
 def toy_module(name, func):
@@ -112,13 +135,14 @@ def run_evals(cases, rng):
             p["baseline"].set(value=b)
             rec = {"name": name, "x": list(x), "E": E, "cp": cp, "b": b,
                    "wd": wd, "data": data, "raised": "", "out": [0],
-                   "seen": [0], "res": [[0, 1]], "inputs_same": True}
+                   "seen": [0], "res": [[0, 1]], "inputs_same": True,
+                   "stable": True}
             try:
                 SEEN[:] = []
                 snap = (xa.tobytes(), da.tobytes(), p.valuesdict())
                 with warnings.catch_warnings():
                     warnings.simplefilter("ignore")
-                    o = md.model(p, xa)
+                    o = np.array(md.model(p, xa), copy=True)
                     seen = list(SEEN[0]) if SEEN else []
                     # residuals with the contact point of THIS evaluation
                     p2 = md.get_parameter_defaults()
@@ -126,6 +150,11 @@ def run_evals(cases, rng):
                     p2["contact_point"].set(value=cpr)
                     p2["baseline"].set(value=b)
                     r = md.residual(p2, xa, da, wd)
+                    # ... and the residuals for the SAME parameters, then
+                    # the model again: it still is the model
+                    md.residual(p, xa, da, wd)
+                    o2 = np.asarray(md.model(p, xa))
+                    rec["stable"] = bool(np.array_equal(o, o2))
                 rec["inputs_same"] = snap == (xa.tobytes(), da.tobytes(),
                                               p.valuesdict())
                 rec["out"] = [int(v) if float(v).is_integer() else 10 ** 6
